@@ -568,6 +568,7 @@ func (fc *FnCtx) evalCallWith(st *State, call *ast.CallExpr, preRecv *Val, preAr
 	if vs, ok := fc.atomicCall(st, call, f); ok {
 		return vs
 	}
+	fc.bumpCall(st, f.Name())
 	if fc.isQuiet(f) && fc.lookupContract(f) == nil {
 		fc.checkCallPre(st, call, f, nil, nil)
 		if f.Name() == "Wait" && fc.root().spawned {
@@ -2353,4 +2354,24 @@ func (fc *FnCtx) lookupContract(f *types.Func) *Contract {
 		}
 	}
 	return ct
+}
+
+// bumpCall counts a call of a function named in the `counts` clause of the contract under verification.
+func (fc *FnCtx) bumpCall(st *State, name string) {
+	r := fc.root()
+	if r.ct == nil {
+		return
+	}
+	for _, n := range r.ct.Counts {
+		if n == name {
+			if st.calls == nil {
+				st.calls = map[string]string{}
+			}
+			cur := st.calls[name]
+			if cur == "" {
+				cur = "0"
+			}
+			st.calls[name] = "(+ " + cur + " 1)"
+		}
+	}
 }
